@@ -21,7 +21,7 @@ def run_scenarios(ctx):
         try:
             for k in range(rng.randint(1, 12 if i % 3 else 60)):
                 open(os.path.join(w.items[0], 'f%d' % k), 'wb').write(os.urandom(rng.choice([10, 5000, 200000])))
-            nruns = 3 if forced else rng.randint(1, 4)
+            nruns = 3 if forced or i == 2 else rng.randint(1, 4)
             for r in range(nruns):
                 if rng.random() < 0.3 and r > 0:
                     # an abandoned temporary in the newest group
@@ -35,12 +35,15 @@ def run_scenarios(ctx):
                 adv = hist.DAY if forced else rng.choice([5, hist.DAY])
                 env = {'TRACE': t, 'WATCH': w.root}
                 fault = None
-                if rng.random() < 0.35 and not forced:
+                flush_fault = i == 2      # one storage where every run has a failing flush, the directory flushes with EINVAL first
+                if (rng.random() < 0.35 or flush_fault) and not forced:
                     # a flush that fails: the run must not go on to rename / report success / delete
                     tmp = os.path.join(w.root, sorted(os.listdir(w.root))[-1] if os.listdir(w.root) else store.group_name(w.now + adv), '.' + store.backup_name(w.now + adv))
                     grp_new = os.path.join(w.root, store.group_name(w.now + adv))
                     fault = rng.choice(['fsync@%s/data.tar.zst' % tmp, 'fsync@%s/metadata.zst' % tmp, 'fsyncdir@%s' % tmp, 'fsyncdir@%s' % os.path.dirname(tmp),
                                         'fsync@%s/.%s/data.tar.zst' % (grp_new, store.backup_name(w.now + adv)), 'fsyncdir@%s' % grp_new]) + '=' + rng.choice(['EIO', 'ENOSPC', 'EINVAL'])
+                    if flush_fault and r < 2:
+                        fault = ['fsyncdir@%s=EINVAL' % tmp, 'fsyncdir@%s=EINVAL' % os.path.dirname(tmp)][r]
                     env['FAULT'] = fault
                 soft = (forced and r > 0) or rng.random() < 0.2
                 if soft:
